@@ -43,10 +43,21 @@ fn left_anchored_family(r: &mut Rng) -> Vec<String> {
     let o = r.pick(&["", "$script", "$image,third-party"]);
     let host = r.pick(gen::HOSTS);
     let mut v = vec![];
+    let mut urls = vec![];
     for i in 0..n {
         let path = match i % 4 { 0 => String::new(), 1 => format!("/{}", r.pick(gen::VOCAB)), 2 => format!("/{}/{}/{}.js", r.pick(gen::VOCAB), r.pick(gen::VOCAB), r.pick(gen::VOCAB)), _ => format!("/{}?{}=1&very-long-query-string-{}", r.pick(gen::VOCAB), r.pick(gen::PARAMS), i) };
         v.push(format!("|https://{}{}{}", host, path, o));
     }
+    // always: members much longer than the URLs asked about next to short members that match them
+    // (whichever comes first by id, the fused rule must try every pattern)
+    for i in 0..r.range(2, 4) {
+        v.push(format!("|https://{}/{}/a-very-long-path-segment-number-{}/and-another-one/file{}.js{}", host, r.pick(gen::VOCAB), i, i, o));
+        let w = r.pick(gen::VOCAB);
+        v.push(format!("|https://{}/{}{}{}", host, w, i, o));
+        urls.push(format!("https://{}/{}{}", host, w, i));
+        urls.push(format!("https://{}/{}{}/x", host, w, i));
+    }
+    FAMILY.with(|f| *f.borrow_mut() = (urls, None));
     v
 }
 /// Plain rules anchored on BOTH sides (`|https://host/a|`: the URL must equal the pattern), several
